@@ -2,24 +2,26 @@
 (* C15 generator: Author actions build small inputs; faults arise at every position and in every combination by construction
    (every prefix of an input is an input).  The menus are constants so that configurations select sub-spaces. *)
 EXTENDS O2OValidate, Json
-CONSTANTS MaxTraits, MaxTAttrs, MaxMembers, MaxMAttrs, DTs, Shapes, TNames, Hints, TMenu, MMenu, TCps, MCps
+CONSTANTS MaxTraits, MaxTAttrs, MaxMembers, MaxMAttrs, DTs, Shapes, TNames, Hints, TMenu, MMenu, TCps, MCps,
+          SpellAll     \* C13: every instruction in both spellings (bare / #[o2o(..)]), and adjacent own ones grouped or not
 VARIABLE in
-Init == \E dt \in DTs, sh \in Shapes : (dt = "enum" => sh = "named") /\ in = [dt |-> dt, shape |-> sh, traits |-> <<>>, tattrs |-> <<>>, ms |-> <<>>]
-AddTrait(n, cp, e, h) == /\ Len(in.traits) < MaxTraits /\ in.tattrs = <<>> /\ in.ms = <<>>
+Owns == IF SpellAll THEN BOOLEAN ELSE {FALSE}
+Init == \E dt \in DTs, sh \in Shapes, g \in Owns : (dt = "enum" => sh = "named") /\ in = [dt |-> dt, shape |-> sh, traits |-> <<>>, tattrs |-> <<>>, ms |-> <<>>, grouped |-> g]
+AddTrait(n, cp, e, h, own) == /\ Len(in.traits) < MaxTraits /\ in.tattrs = <<>> /\ in.ms = <<>>
                          /\ (h = "struct" => in.dt = "struct" /\ in.shape = "tuple")
-                         /\ in' = [in EXCEPT !.traits = Append(@, [n |-> n, cp |-> cp, err |-> e, hint |-> h])]
+                         /\ in' = [in EXCEPT !.traits = Append(@, [n |-> n, cp |-> cp, err |-> e, hint |-> h, own |-> own])]
 AddTAttr(n, cp, own) == /\ Len(in.tattrs) < MaxTAttrs /\ in.ms = <<>>
                         /\ (n \notin TypeLevelOk => cp = "-")
-                        /\ (n = "bogus" \/ own = FALSE)            \* spelling is C13's business; only `bogus` depends on it
+                        /\ (SpellAll \/ n = "bogus" \/ own = FALSE)            \* spelling is C13's business; only `bogus` depends on it
                         /\ in' = [in EXCEPT !.tattrs = Append(@, [n |-> n, cp |-> cp, own |-> own])]
 AddMember == Len(in.ms) < MaxMembers /\ in' = [in EXCEPT !.ms = Append(@, <<>>)]
 AddMAttr(n, cp, own) == /\ in.ms # <<>> /\ Len(in.ms[Len(in.ms)]) < MaxMAttrs
                         /\ (n \notin MemberOk => cp = "-")
-                        /\ (n = "bogus" \/ own = FALSE)
+                        /\ (SpellAll \/ n = "bogus" \/ own = FALSE)
                         /\ ~(in.dt = "enum" /\ n = "child")                  \* #[child] on a variant: no documented rule either way
                         /\ ~(n \in {"literal", "pattern", "type_hint"} /\ in.dt = "enum" /\ \E x \in ToSetQ(in.ms[Len(in.ms)]) : x.n \in {"literal", "pattern"} /\ x.n # n)
                         /\ in' = [in EXCEPT !.ms[Len(in.ms)] = Append(@, [n |-> n, cp |-> cp, own |-> own])]
-Next == \/ \E n \in TNames, cp \in {"A", "B"}, e \in {"-", "E1"}, h \in Hints : AddTrait(n, cp, e, h)
+Next == \/ \E n \in TNames, cp \in {"A", "B"}, e \in {"-", "E1"}, h \in Hints, own \in Owns : AddTrait(n, cp, e, h, own)
         \/ \E n \in TMenu, cp \in TCps, own \in BOOLEAN : AddTAttr(n, cp, own)
         \/ AddMember
         \/ \E n \in MMenu, cp \in MCps, own \in BOOLEAN : AddMAttr(n, cp, own)
